@@ -61,6 +61,8 @@ def _case(ctx):
     G = g.standard_normal((nglob, nmodes))
     if cplx:
         G = G + 1j * g.standard_normal((nglob, nmodes))
+    # mode shapes have no preferred unit: whole-matrix amplitudes far from 1 are part of the domain
+    G = G * rng.choice([1.0, 1.0, 1e-5, 1e5, 1e-7])
     nset = len(rows)
     s = np.exp(g.uniform(np.log(0.05), np.log(20), size=(nset, nmodes))) * g.choice([-1.0, 1.0], size=(nset, nmodes))
     phis = [np.array(G[rows[i], :] * s[i][None, :]) for i in range(nset)]
@@ -90,7 +92,9 @@ def correspondence(ctx):
         n = rng.randint(1, 8)
         x = g.standard_normal(n) + 1j * g.standard_normal(n) * rng.choice([0, 1])
         y = g.standard_normal(n) + 1j * g.standard_normal(n) * rng.choice([0, 1])
-        if abs((x * x).sum()) > 1e-3:
+        amp = rng.choice([1.0, 1e-5, 1e4])
+        x, y = x * amp, y * amp
+        if abs((x * x).sum()) > 1e-3 * (abs(x) ** 2).sum():
             impl = float(gen.MSF(x, y)[0])
             m = ctx.model("msf", phi1=Cvec(x), phi2=Cvec(y))
             ctx.corr("gen.MSF", abs(fl(m[0]) - impl) <= 1e-10 * max(1, abs(impl)) and fl(m[1]) == 0.0,
@@ -197,6 +201,17 @@ def oracle(ctx, scale):
             res = allres[names[0]]
             fns, xis = groups[0][1], groups[0][2]
             merged = res.Phi
+            if rng.random() < 0.5:
+                # a second PoSER object in the same session (other shapes) must leave the first one's merged results alone
+                keep = {k: (np.array(v.Phi, copy=True), np.array(v.Fn, copy=True)) for k, v in allres.items()}
+                other = [([np.array(p_) * 3.0 + 1.0 for p_ in a], b * 2.0, c) for (a, b, c, _d) in groups]
+                _poser_with_stub_results(ctx, rows, refs, other)
+                ctx.oracle_cases += 1
+                for k, (ph, fn_) in keep.items():
+                    if not (np.array_equal(allres[k].Phi, ph) and np.array_equal(allres[k].Fn, fn_)):
+                        ctx.violation("poser-results-shared", "merging a second MultiSetup_PoSER object changed the merged results returned by the first one",
+                                      {"rows": rows, "refs": refs, "n_algorithms": ngroups})
+                        return
         else:
             merged = gen.merge_mode_shapes(MSarr_list=[p.copy() for p in phis], reflist=[list(r) for r in refs])
         ctx.oracle_cases += 1
